@@ -3,3 +3,7 @@ package hashgraph
 // C19/O4 — call site: the anchor is trusted only with strictly more than one
 // third of the validators of the block's round (same obligation as C09/O2).
 func VerifHarness_C19_O4() { VerifHarness_C09_O2() }
+
+// C19/O7 — call site: only signatures of the block's round validators are
+// recorded and hence counted towards the trust threshold (same obligation as C09/O1).
+func VerifHarness_C19_O7() { VerifHarness_C09_O1() }
